@@ -104,18 +104,24 @@ def binSearch (cmp : Nat → Ordering) : Nat → Nat → Nat → Nat ⊕ Nat
       | .eq => .inl mid
     else .inr left
 
-/-- mirrors: BlockAddrStore::binary_search_ord + bisect_for_ord: block id holding `ord` -/
-def Store.locateOrd (s : Store) (ord : Nat) : Nat :=
-  let firstOrdOf := fun id => match s.get id with | some a => a.firstOrd | none => 0
-  match binSearch (fun g => compare (firstOrdOf (g * Gen.STORE_BLOCK_LEN)) ord) (s.numGroups + 1) 0 s.numGroups with
-  | .inl g => g * Gen.STORE_BLOCK_LEN
+/-- mirrors: BlockAddrStore::binary_search_ord + bisect_for_ord, over abstract accessors:
+`B` = STORE_BLOCK_LEN, `G` = number of store blocks, `bl g` = `block_len` of store block `g`
+(its further addresses), `f id` = first ordinal of block `id`. The `.inl` branch of the outer
+search is the fast path: `ord` is exactly the first ordinal of a store block, whose block id is
+`g * B` (not `g`). -/
+def locateOrdGen (B G : Nat) (bl : Nat → Nat) (f : Nat → Nat) (ord : Nat) : Nat :=
+  match binSearch (fun g => compare (f (g * B)) ord) (G + 1) 0 G with
+  | .inl g => g * B
   | .inr g =>
-    let g := g - 1
-    let m := parseMeta (s.metas.drop (g * META_SIZE))
-    -- inner search over the `blockLen` further blocks of the group
-    match binSearch (fun i => compare (firstOrdOf (g * Gen.STORE_BLOCK_LEN + i + 1)) ord) (m.blockLen + 1) 0 m.blockLen with
-    | .inl i => g * Gen.STORE_BLOCK_LEN + i + 1
-    | .inr i => g * Gen.STORE_BLOCK_LEN + i
+    match binSearch (fun i => compare (f ((g - 1) * B + i + 1)) ord) (bl (g - 1) + 1) 0 (bl (g - 1)) with
+    | .inl i => (g - 1) * B + i + 1
+    | .inr i => (g - 1) * B + i
+
+/-- block id holding `ord`, from the store bytes -/
+def Store.locateOrd (s : Store) (ord : Nat) : Nat :=
+  locateOrdGen Gen.STORE_BLOCK_LEN s.numGroups
+    (fun g => (parseMeta (s.metas.drop (g * META_SIZE))).blockLen)
+    (fun id => match s.get id with | some a => a.firstOrd | none => 0) ord
 
 /-! ### the writer side of one value (for the codec theorem) -/
 
@@ -136,5 +142,148 @@ def packVal (slope nbits i v : Nat) : Nat := v + 2 ^ (nbits - 1) - slope * i
 
 /-- mirrors: deserialize_block_addr — the value read back -/
 def unpackVal (slope nbits i p : Nat) : Nat := p + slope * i - 2 ^ (nbits - 1)
+
+end TantivyModel.SSTable
+
+namespace TantivyModel.SSTable
+open TantivyModel
+
+/-! ### the writer's bit packer (`tantivy_bitpacker::BitPacker`) -/
+
+/-- `(x as u64).to_le_bytes()` -/
+def le8 (x : Nat) : List UInt8 :=
+  [UInt8.ofNat (x % 256), UInt8.ofNat (x / 256 % 256), UInt8.ofNat (x / 65536 % 256),
+   UInt8.ofNat (x / 16777216 % 256), UInt8.ofNat (x / 4294967296 % 256),
+   UInt8.ofNat (x / 1099511627776 % 256), UInt8.ofNat (x / 281474976710656 % 256),
+   UInt8.ofNat (x / 72057594037927936 % 256)]
+
+structure BitPackerSt where
+  buf : Nat := 0        -- mini_buffer (u64)
+  written : Nat := 0    -- mini_buffer_written
+  out : List UInt8 := []
+
+/-- mirrors: BitPacker::write (`|` of disjoint bit ranges written as `+`; `wrapping_shl` as
+`% 2^64`): a value that does not fit the 64-bit mini buffer is split, the full buffer is emitted -/
+def BitPackerSt.write (s : BitPackerSt) (v n : Nat) : BitPackerSt :=
+  if s.written + n > 64 then
+    { buf := v / 2 ^ (64 - s.written), written := s.written + n - 64,
+      out := s.out ++ le8 ((s.buf + v * 2 ^ s.written) % 2 ^ 64) }
+  else if s.written + n = 64 then
+    { buf := 0, written := 0, out := s.out ++ le8 (s.buf + v * 2 ^ s.written) }
+  else { buf := s.buf + v * 2 ^ s.written, written := s.written + n, out := s.out }
+
+/-- mirrors: BitPacker::flush — the used bytes of the mini buffer -/
+def BitPackerSt.flush (s : BitPackerSt) : List UInt8 :=
+  if s.written > 0 then s.out ++ (le8 s.buf).take ((s.written + 7) / 8) else s.out
+
+/-- the bytes written for a sequence of `(value, width)` fields -/
+def bitPack (fs : List (Nat × Nat)) : List UInt8 :=
+  (fs.foldl (fun (s : BitPackerSt) f => s.write f.1 f.2) {}).flush
+
+end TantivyModel.SSTable
+
+namespace TantivyModel.SSTable
+open TantivyModel
+
+/-! ### one store block as the writer lays it out (`BlockAddrStoreWriter::flush_block`) -/
+
+/-- the `(start deviation, ordinal deviation)` fields of the blocks after the reference block,
+block `i` (1-based inside the store block) predicted by `slope * i` -/
+def groupFieldsAux (rs rb os ob : Nat) (ref : BlockAddr) : Nat → List BlockAddr → List (Nat × Nat)
+  | _, [] => []
+  | i, a :: rest =>
+    (packVal rs rb i (a.start - ref.start), rb) :: (packVal os ob i (a.firstOrd - ref.firstOrd), ob) ::
+      groupFieldsAux rs rb os ob ref (i + 1) rest
+
+/-- all fields of a store block `ref :: more`: the pairs, then the end of the last block -/
+def groupFields (rs rb os ob : Nat) (ref : BlockAddr) (more : List BlockAddr) (lastStop : Nat) :
+    List (Nat × Nat) :=
+  groupFieldsAux rs rb os ob ref 1 more ++ [(packVal rs rb (more.length + 1) (lastStop - ref.start), rb)]
+
+/-- the metadata record of that store block (bit-packed data at offset 0) -/
+def groupMeta (rs rb os ob : Nat) (ref : BlockAddr) (more : List BlockAddr) : StoreMeta :=
+  { offset := 0, refStart := ref.start, refOrd := ref.firstOrd, rangeSlope := rs, ordSlope := os,
+    ordBits := ob, rangeBits := rb, blockLen := more.length }
+
+end TantivyModel.SSTable
+
+namespace TantivyModel.SSTable
+open TantivyModel
+
+/-- re-encode every store block of a decoded store with the writer model (the slopes and widths the
+real writer chose are read from the metadata) and compare with the bytes of the file -/
+def Store.reencodeOk (s : Store) : Bool :=
+  (List.range s.numGroups).all (fun g =>
+    let m := parseMeta (s.metas.drop (g * META_SIZE))
+    let ids := (List.range (m.blockLen + 1)).map (fun i => g * Gen.STORE_BLOCK_LEN + i)
+    let addrs := ids.filterMap s.get
+    match addrs with
+    | [] => false
+    | ref :: more =>
+      let lastStop := ((ref :: more).getLast?.map (·.stop)).getD 0
+      let bytes := bitPack (groupFields m.rangeSlope m.rangeBits m.ordSlope m.ordBits ref more lastStop)
+      addrs.length = m.blockLen + 1 && ((s.addrs.drop m.offset).take bytes.length == bytes))
+
+end TantivyModel.SSTable
+
+namespace TantivyModel.SSTable
+open TantivyModel
+
+/-! ### the whole store as the writer serialises it (`BlockAddrStoreWriter::serialize`) -/
+
+def le4 (x : Nat) : List UInt8 :=
+  [UInt8.ofNat (x % 256), UInt8.ofNat (x / 256 % 256), UInt8.ofNat (x / 65536 % 256),
+   UInt8.ofNat (x / 16777216 % 256)]
+
+def le2 (x : Nat) : List UInt8 := [UInt8.ofNat (x % 256), UInt8.ofNat (x / 256 % 256)]
+
+/-- one store block to be written: slopes, widths, reference address, further addresses, final end -/
+structure GroupSpec where
+  rs : Nat
+  rb : Nat
+  os : Nat
+  ob : Nat
+  ref : BlockAddr
+  more : List BlockAddr
+  lastStop : Nat
+
+def GroupSpec.bytes (g : GroupSpec) : List UInt8 :=
+  bitPack (groupFields g.rs g.rb g.os g.ob g.ref g.more g.lastStop)
+
+/-- mirrors: BlockAddrBlockMetadata::serialize -/
+def metaBytes (g : GroupSpec) (offset : Nat) : List UInt8 :=
+  le8 offset ++ (le8 g.ref.start ++ (le8 g.ref.firstOrd ++ (le4 g.rs ++ (le4 g.os ++
+    (UInt8.ofNat g.ob :: UInt8.ofNat g.rb :: le2 g.more.length)))))
+
+/-- metadata records with the running offset into the packed data -/
+def storeMetas : Nat → List GroupSpec → List UInt8
+  | _, [] => []
+  | off, g :: gs => metaBytes g off ++ storeMetas (off + g.bytes.length) gs
+
+def storeData (gs : List GroupSpec) : List UInt8 := (gs.map (·.bytes)).flatten
+
+/-- mirrors: BlockAddrStoreWriter::serialize — `u64 len(metadata) | metadata | packed data` -/
+def storeBytes (gs : List GroupSpec) : List UInt8 :=
+  le8 (META_SIZE * gs.length) ++ (storeMetas 0 gs ++ storeData gs)
+
+end TantivyModel.SSTable
+
+namespace TantivyModel.SSTable
+open TantivyModel
+
+/-- the store blocks of a decoded store as writer input (slopes and widths from the metadata) -/
+def Store.groupSpecs (s : Store) : List GroupSpec :=
+  (List.range s.numGroups).filterMap (fun g =>
+    let m := parseMeta (s.metas.drop (g * META_SIZE))
+    let ids := (List.range (m.blockLen + 1)).map (fun i => g * Gen.STORE_BLOCK_LEN + i)
+    match ids.filterMap s.get with
+    | [] => none
+    | ref :: more =>
+      some ⟨m.rangeSlope, m.rangeBits, m.ordSlope, m.ordBits, ref, more,
+            ((ref :: more).getLast?.map (·.stop)).getD 0⟩)
+
+/-- the whole store region re-serialised by the writer model equals the bytes of the file -/
+def reencodeStoreOk (bytes : List UInt8) : Bool :=
+  storeBytes (openStore bytes).groupSpecs == bytes
 
 end TantivyModel.SSTable
